@@ -1,0 +1,24 @@
+//go:build verif
+
+package sync
+
+import (
+	"time"
+
+	"github.com/celestiaorg/go-header"
+)
+
+// verifHdr is a placeholder header type for instantiating generic helpers in VerifRangeAmount.
+type verifHdr struct{}
+
+func (*verifHdr) New() *verifHdr                 { return &verifHdr{} }
+func (h *verifHdr) IsZero() bool                 { return h == nil }
+func (*verifHdr) ChainID() string                { return "" }
+func (*verifHdr) Hash() header.Hash              { return nil }
+func (*verifHdr) Height() uint64                 { return 0 }
+func (*verifHdr) LastHeader() header.Hash        { return nil }
+func (*verifHdr) Time() time.Time                { return time.Time{} }
+func (*verifHdr) Verify(*verifHdr) error         { return nil }
+func (*verifHdr) Validate() error                { return nil }
+func (*verifHdr) MarshalBinary() ([]byte, error) { return nil, nil }
+func (*verifHdr) UnmarshalBinary([]byte) error   { return nil }
